@@ -65,7 +65,7 @@ Theorem chunk_roundtrip :
   forall c h hist w syms evs c' h' t0 tail n,
   (* the encoder side *)
   no_end syms -> hist_rel h hist -> data_ok h -> reps_nonneg c ->
-  h_dict h <= 2147483648 -> h_dict h <= w_size w ->
+  h_dict h <= 2147483648 -> (h_dict h <= w_size w \/ h_total h - h_base h <= w_size w) ->
   enc_syms c h syms = Ok (evs, c', h') ->
   probs_ok t0 -> events_bits evs <= RC_MAX_BITS ->
   (* the decoder side: a window holding the same history, room for the whole run *)
